@@ -159,7 +159,7 @@ func runC16(c *Ctx) {
 					case "name":
 						call := o.v.(*ssa.Call)
 						m := call.Call.Args[len(call.Call.Args)-1]
-						ok := lenGuarded(call.Block(), m, 48)
+						ok := c.lenGuardedLifted(call.Block(), m, 48, 0)
 						c.S.Check(ok, "R2", load.FuncName(call.Parent())+":object name from full-length measurement", c.pos(call.Pos()), "behind len(measurement) == 48 for the same measurement", "an object name is derived from a measurement whose length has not been checked at this site: a fetch can be issued for a truncated or empty measurement")
 					case "const":
 						k := o.v.(*ssa.Const)
@@ -621,6 +621,48 @@ func onlyHexEncoded(c *Ctx, p *ssa.Parameter, depth int) bool {
 
 // lenGuarded: block b is dominated by the equal edge of len(m) == k (or the
 // false edge of !=), for the same value m (identity or equal access path).
+// lenGuardedLifted: lenGuarded at this site, or — when m is a parameter of an unexported function — at every one of
+// that function's call sites for the argument passed (the caller checked the length before handing the
+// measurement to the helper).
+func (c *Ctx) lenGuardedLifted(b *ssa.BasicBlock, m ssa.Value, k int64, depth int) bool {
+	if lenGuarded(b, m, k) {
+		return true
+	}
+	p, ok := m.(*ssa.Parameter)
+	if !ok || depth > 3 {
+		return false
+	}
+	fn := p.Parent()
+	if fn.Parent() == nil && fn.Object() != nil && fn.Object().Exported() {
+		return false // anyone may call it
+	}
+	idx := -1
+	for i, q := range fn.Params {
+		if q == p {
+			idx = i
+		}
+	}
+	n := c.P.CallGraph().Nodes[fn]
+	if n == nil || idx < 0 {
+		return false
+	}
+	sites := 0
+	for _, e := range n.In {
+		if e.Site == nil || e.Caller.Func == nil || c.isTestFunc(e.Caller.Func) {
+			continue
+		}
+		cc := e.Site.Common()
+		if cc.IsInvoke() || cc.StaticCallee() != fn || idx >= len(cc.Args) {
+			return false // reached through a function value / interface: call sites not enumerable
+		}
+		sites++
+		if !c.lenGuardedLifted(e.Site.Block(), cc.Args[idx], k, depth+1) {
+			return false
+		}
+	}
+	return sites > 0
+}
+
 func lenGuarded(b *ssa.BasicBlock, m ssa.Value, k int64) bool {
 	mp := flow.PathOf(m)
 	for _, cf := range dominatingConds(b) {
